@@ -25,6 +25,8 @@ def main():
     for i in range(1, 21):
         pid = "C%02d" % i
         outd = "/tmp/%s_%s_out" % (prefix, pid)
+        if not os.path.exists(outd):
+            continue  # a round may cover only some of the properties
         for x, letter in zip("ABCDEFGH"[:len(letters)], letters):
             d = os.path.join(V, "seeded", "%s-%s" % (pid, letter))
             os.makedirs(d, exist_ok=True)
